@@ -56,6 +56,8 @@ structure SpecSt where
   hsOpen : List (Nat × List String) := []              -- entry -> reference keys whose in-flight count it raised
   hsAdm : List (String × Nat × Nat) := []              -- reference key -> (time of first request, tokens admitted since)
   hsLast : List (String × Nat) := []                   -- reference key -> scheduled time (ms) of the last admitted request (throttling)
+  warm : List (String × Nat × Nat × Nat) := []         -- resource -> (q, cold factor, period) of its warm-up rule
+  phase : Option (String × Nat × Nat × Nat × Nat × Nat) := none  -- (kind, q, p, c, per, start ms) of the demand phase being watched
   brs : List (String × List SBreaker) := []            -- Spec breakers per resource, implementation order
   brHooks : List (Nat × List String) := []             -- entry -> breakers it probes
   thrN : List (String × List World.FlowSpec) := []     -- resources all of whose flow rules are direct/throttling (implementation order)
@@ -369,6 +371,40 @@ def stepCase (st : St) (v : Verdict) (i : Nat) (opText obs : String) : St × Ver
     match (obsField obs "t").toNat? with
     | some t => ({ st with w := { w with nowNs := t } }, v)
     | none => bad "bad-obs"
+  | "note" =>
+    let v := v.expect i opText "ok" obs
+    match op.get? "phase" with
+    | some "end" =>
+      (match sp.phase with
+      | none => (st, v)
+      | some (kind, q, p, c, per, start) =>
+        let t := w.nowMs
+        -- tokens admitted per calendar second fully inside the phase
+        let s0 := (start + 999) / 1000
+        let s1 := t / 1000
+        let secs := (List.range (s1 - s0)).map (fun k => s0 + k)
+        let A := secs.map (fun s => ((sp.admitted.filter (fun a => a.2.1 / 1000 == s)).map (fun a => a.2.2.1)).sum)
+        let first := ((sp.admitted.filter (fun a => start ≤ a.2.1 && a.2.1 < (start / 1000 + 1) * 1000)).map (fun a => a.2.2.1)).sum
+        let rec mono : List Nat → Bool
+          | a :: b :: rest => (b + per ≥ a) && mono (b :: rest)
+          | _ => true
+        let v := if kind == "sat" then
+            let v := if !mono A then v.setViol s!"step={i} warm-up: per-second admissions {A} decrease under saturating demand" else v
+            let upTo := A.take (2 * p + 2)
+            let v := if A.length ≥ 2 * p + 2 && !(upTo.any (fun a => a + per ≥ q)) then
+                v.setViol s!"step={i} warm-up: allowance did not reach q={q} within 2p+2={2*p+2} seconds: {A}" else v
+            -- cold start: tokens admitted before the first calendar-second boundary of the phase stay at the cold rate
+            let v := if first * c > q + (per + 1) * c then v.setViol s!"step={i} warm-up: cold start admitted {first} before the first second boundary, far above q/c={q / c}" else v
+            v.addTag "warmup-saturating"
+          else
+            if first * c > q + (per + 1) * c then v.setViol s!"step={i} warm-up: after an idle period of at least 2p seconds the rule is not cold again: {first} admitted before the first second boundary, q/c={q / c}"
+            else v.addTag "warmup-cold-again"
+        ({ st with sp := { sp with phase := none } }, v))
+    | some kind =>
+      (match op.nat "q", op.nat "p", op.nat "c", op.nat "per" with
+      | .ok q, .ok p, .ok c, .ok per => ({ st with sp := { sp with phase := some (kind, q, p, c, per, w.nowMs) } }, v)
+      | _, _, _, _ => (st, v))
+    | none => (st, v)
   | "adv" =>
     match op.natD "ns" 0, op.natD "ms" 0 with
     | .ok ns, .ok ms => ({ st with w := { w with nowNs := w.nowNs + ns + ms * 1000000 } }, v.expect i opText "ok" obs)
@@ -392,6 +428,10 @@ def stepCase (st : St) (v : Verdict) (i : Nat) (opText obs : String) : St × Ver
           else { sp with thrN := sp.thrN.filter (fun p => p.1 != res) }
         let v := if rules'.any (·.throttling) then v.addTag "flow-throttling" else v
         let v := if rules'.any (·.warmUp) then v.addTag "flow-warmup" else v
+        let sp := match rules' with
+          | [r] => if r.warmUp && !r.throttling && r.ivl == 0 then
+              { sp with warm := World.update sp.warm res (r.thr.toNatFloor, (if r.coldFactor ≤ 1 then 3 else r.coldFactor), r.period) } else sp
+          | _ => sp
         let v := if srules.any (·.priv) then v.addTag "private-window" else v
         let v := if srules.any (fun r => !r.priv && r.W != 1000) then v.addTag "reused-global-window" else v
         let v := if srules.length > 1 then v.addTag "several-rules" else v
@@ -474,6 +514,18 @@ def stepCase (st : St) (v : Verdict) (i : Nat) (opText obs : String) : St × Ver
       let obs := if obsFull.startsWith "pass" then "pass" else obsFull
       let v := if sp.other.contains res then v else
         match specBuild sp res t batch inbound obs with | some m => v.setViol s!"step={i} {m}" | none => v
+      -- warm-up Spec: never more than q per statistic interval; a rejection only above the cold rate q/c
+      let v := match World.lookup sp.warm res with
+        | some (q, c, _) =>
+          if !(w.isoRules res).isEmpty || !(w.hsCtrls res).isEmpty || !(w.breakers res).isEmpty || (!w.sys.isEmpty && inbound) then v else
+          let hi := t - t % 500
+          let inWinTok := ((sp.admitted.filter (fun a => a.1 == res && hi - 500 ≤ a.2.1 - a.2.1 % 500 && a.2.1 - a.2.1 % 500 ≤ hi)).map (fun a => a.2.2.1)).sum
+          if obs == "pass" then
+            if inWinTok + batch > q then v.setViol s!"step={i} warm-up: {inWinTok}+{batch} tokens admitted in one statistic interval, above q={q}" else v
+          else if obsField obs "type" == "Flow" then
+            if (inWinTok + batch) * c < q then v.setViol s!"step={i} warm-up: rejected at {inWinTok}+{batch} tokens in the interval, below the cold rate q/c={q}/{c}" else v.addTag "warmup-reject"
+          else v
+        | none => v
       -- circuit-breaker Spec
       let (sp, v) : SpecSt × Verdict := match World.lookup sp.brs res with
         | none => (sp, v)
